@@ -102,7 +102,7 @@ class _Explainer:
             self.geo_checks += 1
             if True:
                 g = geo_dist(pt, self.distname)
-                sc = float(np.max(np.abs(pt))) + float(np.hypot(*(np.asarray(pt[-1], float) - np.asarray(pt[0], float))))
+                sc = float(np.max(np.abs(np.asarray(pt, dtype=float) - np.asarray(pt[0], dtype=float)))) + float(np.hypot(*(np.asarray(pt[-1], float) - np.asarray(pt[0], float))))
                 tol_ = 64 * EPS * sc + 1e-9 * g
                 if np.all(np.isfinite(g)) and np.all(np.isfinite(d)):
                     self.ctx.check(bool(np.all(np.abs(d - g) <= tol_)), 'distance-model', f'primitive:distance-model:{self.distname}',
@@ -110,7 +110,7 @@ class _Explainer:
                                    f'(max deviation {float(np.max(np.abs(d - g))):.3g}, tol {float(np.max(tol_)):.3g})',
                                    segment=[a, b], got=d[:8], geometry=g[:8])
         dmax = np.max(d[1:-1])
-        scale = float(np.max(np.abs(pt))) + float(np.hypot(*(np.asarray(pt[-1], float) - np.asarray(pt[0], float))))
+        scale = float(np.max(np.abs(np.asarray(pt, dtype=float) - np.asarray(pt[0], dtype=float)))) + float(np.hypot(*(np.asarray(pt[-1], float) - np.asarray(pt[0], float))))
         tol = max(64 * EPS * scale, EPS)
         cands = [r_ for r_ in inside if d[r_ - a] >= dmax - tol]
         if not cands:
